@@ -33,6 +33,35 @@ frames['llc plain'] = eth(0x0010, bytes([0x42, 0x42, 0x03]) + b"\0" * 13)
 frames['eapol eap'] = eth(0x888e, struct.pack("!BBH", 1, 0, 9) + struct.pack("!BBHB", 1, 7, 9, 1) + b"user")
 def tlv (t, v): return struct.pack("!H", (t << 9) | len(v)) + v
 frames['lldp'] = eth(0x88cc, tlv(1, b"\x04\x02\0\0\0\0\x01") + tlv(2, b"\x02" + b"1") + tlv(3, b"\x00\x78") + tlv(5, b"name") + tlv(6, b"descr") + tlv(0, b""), dst=b"\x01\x80\xc2\x00\x00\x0e")
+# more protocols (for the corruption sweep)
+def tcp (sp, dp, opts=b"", payload=b""):
+  off = 5 + len(opts) // 4
+  return struct.pack("!HHIIBBHHH", sp, dp, 1, 2, off << 4, 0x18, 1000, 0, 0) + opts + payload
+frames['tcp+options'] = eth(0x0800, ip4(6, tcp(1, 2, bytes([2, 4, 5, 0xb4, 1, 3, 3, 7, 4, 2, 8, 10, 0, 0, 0, 1, 0, 0, 0, 2, 0, 0, 0, 0]), b"data")))
+frames['tcp unknown opt'] = eth(0x0800, ip4(6, tcp(1, 2, bytes([99, 6, 1, 2, 3, 4, 0, 0]), b"")))
+frames['ipv4+options'] = eth(0x0800, ip4(17, udp(1, 2, b"x"), opts=bytes([7, 7, 4, 0, 0, 0, 0, 0])))
+frames['icmp echo'] = eth(0x0800, ip4(1, struct.pack("!BBHHH", 8, 0, 0, 1, 1) + b"ping"))
+frames['icmp unreach'] = eth(0x0800, ip4(1, struct.pack("!BBHHH", 3, 1, 0, 0, 0) + ip4(17, udp(1, 2, b""))))
+frames['arp'] = eth(0x0806, struct.pack("!HHBBH6s4s6s4s", 1, 0x0800, 6, 4, 1, b"\x02\0\0\0\0\x02", b"\x0a\0\0\x01", b"\0" * 6, b"\x0a\0\0\x02"))
+frames['vlan'] = eth(0x8100, struct.pack("!HH", 0x2005, 0x0800) + ip4(17, udp(1, 2, b"x")))
+frames['vlan vlan'] = eth(0x8100, struct.pack("!HH", 5, 0x8100) + struct.pack("!HH", 6, 0x0800) + ip4(17, udp(1, 2, b"x")))
+frames['mpls'] = eth(0x8847, struct.pack("!I", (16 << 12) | (1 << 8) | 64) + ip4(17, udp(1, 2, b"x")))
+frames['icmpv6 echo'] = eth(0x86dd, ip6(58, struct.pack("!BBHHH", 128, 0, 0, 1, 1) + b"ping"))
+frames['icmpv6 unreach'] = eth(0x86dd, ip6(58, struct.pack("!BBHI", 1, 0, 0, 0) + ip6(17, udp(1, 2, b""))))
+frames['icmpv6 ns'] = eth(0x86dd, ip6(58, struct.pack("!BBHI16s", 135, 0, 0, 0, b"\x20\x01" + b"\0" * 13 + b"\x02") + bytes([1, 1, 2, 0, 0, 0, 0, 2])))
+frames['icmpv6 ra'] = eth(0x86dd, ip6(58, struct.pack("!BBHBBHII", 134, 0, 0, 64, 0, 1800, 0, 0) + bytes([3, 4, 64, 0xc0]) + struct.pack("!III", 100, 50, 0) + b"\x20\x01" + b"\0" * 14 + bytes([5, 1, 0, 0]) + struct.pack("!I", 1500)))
+frames['ipv6 hbh+routing'] = eth(0x86dd, ip6(0, bytes([43, 0, 1, 4, 0, 0, 0, 0]) + bytes([17, 0, 0, 0, 0, 0, 0, 0]) + udp(1, 2, b"hello")))
+frames['ipv6 fragment'] = eth(0x86dd, ip6(44, struct.pack("!BBHI", 17, 0, 1, 7) + udp(1, 2, b"frag")))
+frames['dns'] = eth(0x0800, ip4(17, udp(5353, 53, struct.pack("!HHHHHH", 1, 0x0100, 1, 0, 0, 0) + b"\x03www\x07example\x03com\x00" + struct.pack("!HH", 1, 1))))
+frames['dns answer'] = eth(0x0800, ip4(17, udp(53, 5353, struct.pack("!HHHHHH", 1, 0x8180, 1, 1, 0, 0) + b"\x03www\x07example\x03com\x00" + struct.pack("!HH", 1, 1) + b"\xc0\x0c" + struct.pack("!HHIH", 1, 1, 60, 4) + b"\x01\x02\x03\x04")))
+frames['rip'] = eth(0x0800, ip4(17, udp(520, 520, struct.pack("!BBH", 2, 2, 0) + struct.pack("!HH4s4s4sI", 2, 0, b"\x0a\0\0\0", b"\xff\0\0\0", b"\0" * 4, 1))))
+frames['vxlan'] = eth(0x0800, ip4(17, udp(1, 4789, struct.pack("!II", 0x08000000, 5 << 8) + eth(0x0800, ip4(17, udp(1, 2, b"x"))))))
+frames['gre routing'] = eth(0x0800, ip4(47, struct.pack("!HHHH", 0x4000, 0x0800, 0, 0) + struct.pack("!HBB", 0x0800, 0, 4) + b"\x01\x02\x03\x04" + struct.pack("!HBB", 0, 0, 0) + ip4(17, udp(1, 2, b"x"))))
+frames['lldp org'] = eth(0x88cc, tlv(1, b"\x04\x02\0\0\0\0\x01") + tlv(2, b"\x02" + b"1") + tlv(3, b"\x00\x78") + tlv(7, b"\x00\x14\x00\x14") + tlv(8, b"\x05\x01\x0a\0\0\x01\x02\0\0\0\x01\0") + tlv(127, b"\x00\x12\x0f\x01abc") + tlv(0, b""), dst=b"\x01\x80\xc2\x00\x00\x0e")
+frames['tcp unknown opt+payload'] = eth(0x0800, ip4(6, tcp(1, 2, bytes([99, 6, 1, 2, 3, 4, 0, 0]), b"P" * 300)))
+frames['icmpv6 too big'] = eth(0x86dd, ip6(58, struct.pack("!BBHI", 2, 0, 0, 1280) + ip6(17, udp(1, 2, b"x"))))
+frames['icmpv6 time exceeded'] = eth(0x86dd, ip6(58, struct.pack("!BBHI", 3, 0, 0, 0) + ip6(17, udp(1, 2, b"x"))))
+CORRUPT = '--corrupt' in sys.argv
 seen = {}
 def attempt (what, f, label, n):
   try: f()
@@ -42,9 +71,15 @@ def attempt (what, f, label, n):
     last = [t for t in tb if '/pox/' in t.filename][-1] if any('/pox/' in t.filename for t in tb) else tb[-1]
     key = (label, what, type(e).__name__, os.path.basename(last.filename), last.lineno)
     if key not in seen: seen[key] = (n, str(e)[:70], last.line)
+def variants (fr):
+  for n in range(14, len(fr) + 1): yield n, fr[:n]
+  if CORRUPT:
+    for i in range(12, len(fr)):
+      for v in (0, 1, 2, 3, 4, 5, 6, 7, 8, 0x0f, 0x10, 0x3f, 0x40, 0x7f, 0x80, 0xc0, 0xf0, 0xfe, 0xff, fr[i] ^ 1, fr[i] ^ 0x80, (fr[i] + 1) & 255, (fr[i] - 1) & 255):
+        if v != fr[i]: yield -(i * 1000 + v), fr[:i] + bytes([v]) + fr[i + 1:]
+import logging; logging.disable(logging.CRITICAL)
 for label, fr in sorted(frames.items()):
-  for n in range(14, len(fr) + 1):
-    raw = fr[:n]
+  for n, raw in variants(fr):
     box = {}
     def parse (): box['p'] = ethernet(raw)
     attempt('parse', parse, label, n)
@@ -58,6 +93,6 @@ for label, fr in sorted(frames.items()):
       attempt('str(layer)', lambda: str(x), label, n)
       x = getattr(x, 'next', None)
 for k in sorted(seen):
-  print("%-18s %-10s %-16s %s:%s  (first at length %d) %s | %s" % (k[0], k[1], k[2], k[3], k[4], seen[k][0], seen[k][1], (seen[k][2] or '').strip()[:70]))
+  print("%-18s %-10s %-16s %s:%s  (first at %d) %s | %s" % (k[0], k[1], k[2], k[3], k[4], seen[k][0], seen[k][1], (seen[k][2] or '').strip()[:70]))
 print("distinct failing sites:", len(seen))
 sys.stdout.flush(); os._exit(0)
